@@ -344,6 +344,9 @@ def find_item(src, kind, name):
 # Rewrite rules
 # --------------------------------------------------------------------------------------
 TRACE_MACROS = {"trace", "debug", "info", "warn", "error", "println", "eprintln", "debug_assert"}  # debug_assert!: compiled out of release builds
+# //@puremacro /re/: a tracing macro whose argument text matches is dropped although it contains a construct that D1 treats
+# as a possible side effect (e.g. an awaited getter); the unit states why it is a read (listed in the rule log)
+PURE_MACRO_RES = []
 SIDE_EFFECT_RE = re.compile(r"\.await|\.push\(|\.insert\(|\.send\(|\.remove\(|\.pop|\+=|-=|\.take\(|\.swap\(|\.store\(|\.fetch_")
 
 
@@ -389,7 +392,7 @@ def rule_D1_D2(src, lo, hi, relfile, log, enabled):
                 start_i = i - 2
             c = match_close(toks, i + 2)
             inner = " ".join(x.text for x in toks[i + 3:c] if x.kind != "str").replace(" . ", ".").replace(" (", "(")
-            if SIDE_EFFECT_RE.search(inner):
+            if SIDE_EFFECT_RE.search(inner) and not any(re.search(rx, inner) for rx in PURE_MACRO_RES):
                 raise VxError("D1: macro argument may have side effects at %s:%d" % (relfile, line_of(src, t.start)))
             prev = toks[start_i - 1].text if start_i > 0 else ""
             end = toks[c].end
@@ -1723,6 +1726,7 @@ class Gen:
             loc = find_fn(src, name, kv.get("default_impl"), 0)
         enabled = set(ALL_RULES) - {"N8", "N10", "N11", "N12", "N13"}   # N8 (Option::map) and N10 (collect chains) are opt-in
         maps, sigmaps, arms, cut = [], [], None, None
+        puremacros = []
         from_after = None
         requires, ensures = [], []
         loops = {}     # n -> dict(invariant=[(name,text)], decreases=[text], ensures=[])
@@ -1744,6 +1748,11 @@ class Gen:
                 frm, to = _split_map(bs[7:])
                 sigmaps.append((frm, to.rstrip()))
                 mode = None
+            elif bs.startswith("puremacro "):
+                m = re.match(r"puremacro /(.*)/\s*$", bs)
+                if not m:
+                    raise VxError("%s:%d: bad puremacro-directive" % (self.vspec_path, vl))
+                puremacros.append(m.group(1))
             elif bs.startswith("norule "):
                 enabled.discard(bs.split()[1])
                 mode = None
@@ -1855,7 +1864,11 @@ class Gen:
             sig_text = re.sub(r"\bfn\s+%s\b" % re.escape(name), "fn " + newname, sig_text, count=1)
         # body edits
         edits = []
+        PURE_MACRO_RES[:] = puremacros
+        for rx in puremacros:
+            self.log.append(dict(rule="D1p", file=rel, line=fn_line, fn=name, before="tracing macro whose arguments match /%s/" % rx, after="dropped although D1 flags its arguments (declared a pure read by the unit)"))
         edits += rule_D1_D2(src, lo, hi, rel, self.log, enabled)
+        PURE_MACRO_RES[:] = []
         edits += rule_D3(src, lo, hi, enabled)
         edits += rule_D5(src, lo, hi, enabled)
         edits += rule_D6(src, lo, hi, enabled)
